@@ -742,6 +742,17 @@ impl Mon {
                     self.r.violate("C16", &format!("C16/{}/disabled-account-acted", info.kind.name()), format!("account {}", ak));
                 }
             }
+            if info.kind == Kind::Liquidate {
+                if let (Some(p), Some(q)) = (ap, aq) {
+                    // positions opened inside a liquidation next to positions already held (the
+                    // handler looks up two banks on the liquidator before it re-sorts)
+                    let held: Vec<Pubkey> = p.lending_account.balances.iter().filter(|b| b.active != 0).map(|b| b.bank_pk).collect();
+                    let opened = q.lending_account.balances.iter().filter(|b| b.active != 0 && !held.contains(&b.bank_pk)).count();
+                    if opened > 0 && !held.is_empty() {
+                        self.r.count("C16.liquidation_opened_position_next_to_held_ones");
+                    }
+                }
+            }
             if info.kind == Kind::CloseAccount {
                 if let (Some(p), None) = (ap, aq) {
                     self.r.count("C16.account_closed");
